@@ -66,6 +66,8 @@ def doc_corpus():
         ("bit[] operators through a function", "function f(bit[] m) -> bit[] { return ~m | m; }\nfunction main() -> void { bit[] m = {0b, 1b}; echo(f(m) ^ ~m & 1b); }", "{0, 1}\n"),
         ("for over long and boolean", "function main() -> void { for (long i = 4000000000L; i < 4000000002L; i = i + 1L) { echo(i); } for (boolean go = true; go; go = false) { echo(go); } }",
          "4000000000\n4000000001\ntrue\n"),
+        ("array literal in argument position evaluates each element once", "function f(int k) -> int { echo(\"f\" + k); return k; }\nfunction s(int[] v) -> int { return v[0] + v[1]; }\n"
+         "function main() -> void { echo(s({f(1), f(2)})); int[] a = {0}; a = {f(3)}; echo(a); }", "f1\nf2\n3\nf3\n{3}\n"),
         ("a local named like a field, initialised from the field", "class C { public int y = 41; public constructor() -> C { }\n  public function m() -> int { int y = y + 1; return y; } }\n"
          "function main() -> void { C c = new C(); echo(c.m()); echo(c.y); }", "42\n41\n"),
     ]
